@@ -11,7 +11,7 @@ if [ ! -d "$D/repo" ]; then
   git -C /repo worktree add --detach "$D/repo" HEAD >/dev/null 2>&1
 fi
 mkdir -p "$D/verif"
-rsync -a --delete --exclude out --exclude .git --exclude harness/target /verif/ "$D/verif/"
+rsync -a --delete --exclude out --exclude .git --exclude .claude --exclude harness/target /verif/ "$D/verif/"
 sed -i "s#path = \"/repo#path = \"$D/repo#g" "$D/verif/harness/Cargo.toml"
 cat > "$D/env.sh" <<EOT
 export VERIF_REPO=$D/repo
